@@ -45,7 +45,13 @@ def macro_rules(chk, prog):
                 inner = inv[-1]["tts"]
                 if inner and isinstance(inner[0], dict) and inner[0]["d"] == "[":
                     acc = inner[0]["tts"]
-                    first_is_acc = len(acc) >= 2 and acc[0] == "$" and isinstance(acc[1], dict) and "elems" in macros.used_vars(acc[1]["tts"], 1)
+                    # (the accumulator is whatever metavariable the matcher binds inside its leading `[ $( $x:expr, )* ]` group)
+                    acc_name = None
+                    if mt and isinstance(mt[0], dict) and mt[0].get("d") == "[":
+                        bound = macros.used_vars(mt[0]["tts"], 0) if hasattr(macros, "used_vars") else {}
+                        names_ = [k_ for k_ in bound] if isinstance(bound, dict) else list(bound)
+                        acc_name = names_[0] if len(names_) == 1 else None
+                    first_is_acc = len(acc) >= 2 and acc[0] == "$" and isinstance(acc[1], dict) and (acc_name or "elems") in macros.used_vars(acc[1]["tts"], 1)
                     chk.ob("R1.order", n, f"arm `{macros.render(mt, 60)}`: the accumulated elements come first, the new one is appended", first_is_acc,
                            "the new element is placed before the elements already collected: the array/object is built in reverse order")
         forms[n] = fs
